@@ -109,6 +109,8 @@ impl LogicalLineFileFormatter for OptimisingLineFormatter {
             the line wrapping caused by indentation of a multi-line string should
             not cause any multi-line strings to change in indentation.
         */
+        #[cfg(feature = "verif-hooks")]
+        crate::defaults::parser::verif_events::ev("\nWPHASE strings");
         if !self.olf_settings.format_multiline_strings {
             return;
         }
@@ -134,6 +136,8 @@ impl LogicalLineFileFormatter for OptimisingLineFormatter {
         lines_to_reflow.dedup_by_key(|line| line.0);
 
         let reflowed = !lines_to_reflow.is_empty();
+        #[cfg(feature = "verif-hooks")]
+        crate::defaults::parser::verif_events::ev("\nWPHASE reflow");
         for line in lines_to_reflow {
             if let Some(solution) = olf.format_line(line) {
                 olf.reconstruct_solution(&solution, line.1);
@@ -377,6 +381,17 @@ impl<'this> InternalOptimisingLineFormatter<'this, '_> {
                 .get_formatting_data_mut(global_token_index)
                 .expect("formatting data should exist for token");
 
+            #[cfg(feature = "verif-hooks")]
+            crate::defaults::parser::verif_events::ev(&match decision.decision {
+                Decision::Break { continuations } => format!(
+                    "\nWD {} B {} {} {}",
+                    global_token_index,
+                    (decision_index == 0) as u8,
+                    solution.starting_ws.indentations,
+                    solution.starting_ws.continuations + continuations
+                ),
+                Decision::Continue => format!("\nWD {} C", global_token_index),
+            });
             match decision.decision {
                 Decision::Break { continuations } => {
                     /*
